@@ -59,8 +59,6 @@ def rand_constraints(rng, stations):
         coefs = {str(i): rng.choice([1, 1, -1, 0.5, 1 / math.sqrt(3), -0.25, 2]) for i in idx}
         cons.append(dict(coefs=coefs, limit=rng.choice([40, 100, 500])))
     rng.shuffle(cons)
-    for j, c in enumerate(cons):
-        c["name"] = "con%d" % j
     return cons
 
 
@@ -73,7 +71,20 @@ def gen_input(rng, tier):
     # all of them are a whole number of microseconds, the resolution of datetime
     inp["period"] = rng.choice(PERIODS)
     inp["constraints"] = rand_constraints(rng, inp["stations"])
+    inp["cname_scheme"] = rng.choice([0, 1, 1, 2, 2, 3])
+    for j, c in enumerate(inp["constraints"]):
+        c["name"] = cname(j, inp)
     m = len(inp["constraints"])
+    # cross-cutting families (fractions of the budget)
+    if rng.random() < 0.5:
+        inp["styles"] = rng.randint(0, 10**6)     # default / positional / keyword arguments, id containers, dtypes
+    if rng.random() < 0.35:
+        inp["alias"] = True                       # returned arrays scribbled on, another live simulator queried in between
+    if rng.random() < 0.3:
+        nst = len(inp["stations"])
+        inp["edit"] = dict(kind=rng.choice(["remove", "update", "update", "add"]), target=rng.randrange(max(m, 1)),
+                           coefs={str(i): rng.choice([1, -1, 0.5, 2]) for i in rng.sample(range(nst), rng.randint(1, nst))},
+                           limit=rng.choice([50, 77.5]), new=rng.choice([None, 50, 52]))
     names = list(range(m))
     if m == 0:
         inp["cc_queries"] = [[False, None], [True, None], [False, []], [False, [900]]]
@@ -111,18 +122,67 @@ def gen_input(rng, tier):
     return inp
 
 
-def cname(i):
-    return "con%d" % i if i < 900 else "ghost%d" % i
+CNAME_SCHEMES = [
+    lambda j: "con%d" % j,                                   # already sorted
+    lambda j: "c-%d" % (j + 8),                              # c-8, c-9, c-10, ...: numeric, not lexicographic
+    lambda j: ["z", "A", "10", "9", "", "b2"][j],            # mixed case, numeric-looking, and the empty string
+    lambda j: "T%d" % (9 - j),                               # descending
+]
+
+
+def cname(i, inp=None):
+    """constraint number -> name: 0..m-1 the constraints of the input (naming scheme of the input), 50.. names created
+    by later edits, 900.. names that never exist"""
+    if i >= 900:
+        return "ghost%d" % i
+    if i >= 50:
+        return "edit%d" % i
+    return CNAME_SCHEMES[(inp or {}).get("cname_scheme", 0)](i)
+
+
+def decoy_sim(inp, names):
+    """a finished simulation on ANOTHER network of the same shape (same station ids, one constraint, other voltages):
+    queried alternately with the simulation under test"""
+    from datetime import datetime
+    from acnportal.acnsim import ChargingNetwork, Simulator, EventQueue, PluginEvent
+    from acnportal.acnsim.models import EV, Battery, EVSE
+    from acnportal.acnsim.network.current import Current
+    from acnportal.algorithms import BaseAlgorithm
+    net = ChargingNetwork()
+    for k, nm in enumerate(names):
+        net.register_evse(EVSE(nm, max_rate=100), 100.0 + 10 * k, 0)
+    net.add_constraint(Current({nm: 1 for nm in names}), 1000, name=cname(0, inp))
+
+    class Flat(BaseAlgorithm):
+        def __init__(self):
+            super().__init__()
+            self.max_recompute = 1
+
+        def schedule(self, active):
+            return {nm: [10.0] for nm in names}
+    evs = [EV(0, 2, 50, nm, "d%d" % k, Battery(100, 1, 50)) for k, nm in enumerate(names)]
+    sim = Simulator(net, Flat(), EventQueue([PluginEvent(e.arrival, e) for e in evs]), datetime(2021, 1, 1),
+                    period=6, verbose=False)
+    sim.run()
+    return sim
 
 
 def analyse(inp):
-    """extra(sim, ...) callback: call every analysis function on the finished simulator"""
-    def extra(sim, station_ids, sess_num):
+    """extra(sim, ...) callback: call every analysis function on the simulator"""
+    import random as _pyrandom
+    state = dict(decoy=None, calls=0)
+
+    def extra(sim, station_ids, sess_num, after_edit=False, final=False):
+        import warnings
         import numpy as np
         from acnportal.acnsim import analysis as an
+        state["calls"] += 1
+        srng = _pyrandom.Random((inp.get("styles", 0), state["calls"]).__hash__()) if inp.get("styles") is not None else None
         net = sim.network
         index = list(net.constraint_index)
-        num = {nm: index.index(nm) for nm in index}
+        stable = {cname(j, inp): j for j in range(len(inp["constraints"]))}
+        stable.update({"edit%d" % j: j for j in range(50, 60)})
+        num = {nm: stable[nm] for nm in index}
         out = dict(width=int(sim.charging_rates.shape[1]),
                    rates=[[float(x) for x in row] for row in sim.charging_rates],
                    volts=[float(v) for v in net._voltages],
@@ -132,18 +192,62 @@ def analyse(inp):
                    cmat_present=net.constraint_matrix is not None,
                    evh=[[float(ev.requested_energy), float(ev.energy_delivered)] for ev in sim.ev_history.values()],
                    iteration=int(sim.iteration))
-        out["agg_current"] = [float(x) for x in an.aggregate_current(sim)]
-        out["agg_power"] = [float(x) for x in an.aggregate_power(sim)]
-        cc = []
-        for flag, ids in inp["cc_queries"]:
+        msgs = []
+
+        def container(names_):
+            # the requested ids as list / tuple / numpy array (caller-owned: must come back unchanged)
+            c = srng.randrange(3) if srng else 0
+            return list(names_) if c == 0 else (tuple(names_) if c == 1 else np.array(list(names_), dtype=object))
+
+        r1 = an.aggregate_current(sim)
+        out["agg_current"] = [float(x) for x in r1]
+        r2 = an.aggregate_power(sim)
+        out["agg_power"] = [float(x) for x in r2]
+        if inp.get("alias"):
+            # results held by the caller are scribbled on, then the functions are asked again; in between the same
+            # functions are applied to ANOTHER live simulator of the same shape
+            if state["decoy"] is None:
+                state["decoy"] = decoy_sim(inp, station_ids)
+            dec = state["decoy"]
+            np.asarray(r1)[...] = -1.0
+            np.asarray(r2)[...] = -1.0
+            if [float(x) for x in an.aggregate_current(sim)] != out["agg_current"]:
+                msgs.append("aggregate_current changed after the caller wrote into the array it had returned")
+            if [float(x) for x in an.aggregate_power(sim)] != out["agg_power"]:
+                msgs.append("aggregate_power changed after the caller wrote into the array it had returned")
+            want_b = (np.array([100.0 + 10 * k for k in range(len(station_ids))]) @ np.array(dec.charging_rates)) / 1000
+            got_b = an.aggregate_power(dec)
+            if not np.allclose(got_b, want_b, rtol=1e-12, atol=0):
+                msgs.append("aggregate_power of a second simulator queried in between is %r, expected %r" % (
+                    [float(x) for x in got_b], [float(x) for x in want_b]))
+            an.aggregate_current(dec)
             try:
-                d = an.constraint_currents(sim, return_magnitudes=flag,
-                                           constraint_ids=None if ids is None else [cname(i) for i in ids])
+                an.constraint_currents(dec)
+            except Exception as e:  # noqa
+                msgs.append("constraint_currents of a second simulator raised %s" % type(e).__name__)
+            if [float(x) for x in an.aggregate_current(sim)] != out["agg_current"]:
+                msgs.append("aggregate_current changed after the caller wrote into the returned array / queried another simulator")
+            if [float(x) for x in an.aggregate_power(sim)] != out["agg_power"]:
+                msgs.append("aggregate_power changed after the caller wrote into the returned array / queried another simulator")
+        cc = []
+        for qi, (flag, ids) in enumerate(inp["cc_queries"]):
+            arg = None if ids is None else container([cname(i, inp) for i in ids])
+            arg_before = None if arg is None else list(arg)
+            try:
+                style = srng.randrange(3) if srng else 0
+                if style == 1 and not flag and ids is None:
+                    d = an.constraint_currents(sim)                               # all defaults
+                elif style == 2:
+                    d = an.constraint_currents(sim, flag, arg)                    # positional
+                else:
+                    d = an.constraint_currents(sim, return_magnitudes=flag, constraint_ids=arg)
             except TypeError as e:
                 if net.constraint_matrix is not None:
                     raise
                 cc.append("raise:TypeError")
                 continue
+            if arg is not None and list(arg) != arg_before:
+                msgs.append("constraint_currents modified the caller's constraint_ids %r -> %r" % (arg_before, list(arg)))
             items = []
             for k, v in d.items():
                 v = np.asarray(v)
@@ -152,6 +256,14 @@ def analyse(inp):
                 else:
                     items.append([num[k], "m", [float(x) for x in v]])
             cc.append(items)
+            if inp.get("alias") and qi == 0:
+                for v in d.values():
+                    np.asarray(v)[...] = 7e9
+                d2 = an.constraint_currents(sim, return_magnitudes=flag, constraint_ids=arg)
+                again = [[num[k], [float(abs(x)) for x in np.asarray(v)]] for k, v in d2.items()]
+                first = [[it[0], [abs(complex(a, b)) for a, b in zip(it[2], it[3])] if it[1] == "c" else it[2]] for it in items]
+                if json_round(again) != json_round(first):
+                    msgs.append("constraint_currents changed after the caller wrote into the returned arrays")
         out["cc"] = cc
         out["requested"] = float(an.total_energy_requested(sim))
         out["delivered"] = float(an.total_energy_delivered(sim))
@@ -161,13 +273,33 @@ def analyse(inp):
         for ev in list(sim.ev_history.values())[:2]:
             ths.append(float(ev.requested_energy - ev.energy_delivered))
         out["thresholds"] = ths
-        out["met"] = [float(an.proportion_of_demands_met(sim, threshold=t)) if len(sim.ev_history) else None
-                      for t in ths]
+
+        def met(t):
+            if not len(sim.ev_history):
+                return None
+            c = srng.randrange(4) if srng else 0
+            if t == 0.1 and c == 1:
+                return float(an.proportion_of_demands_met(sim))                   # default threshold
+            if c == 2:
+                return float(an.proportion_of_demands_met(sim, np.float64(t)))    # positional numpy scalar
+            if c == 3 and float(t).is_integer():
+                return float(an.proportion_of_demands_met(sim, threshold=int(t)))
+            return float(an.proportion_of_demands_met(sim, threshold=t))
+        out["met"] = [met(t) for t in ths]
         nema = []
-        with np.errstate(all="ignore"):
+        with np.errstate(all="ignore"), warnings.catch_warnings():
+            warnings.simplefilter("ignore")
             for ids in inp["nema_queries"]:
+                arg = container([cname(i, inp) for i in ids])
+                arg_before = list(arg)
                 try:
-                    r = an.current_unbalance(sim, [cname(i) for i in ids])
+                    c = srng.randrange(3) if srng else 0
+                    if c == 1:
+                        r = an.current_unbalance(sim, arg, unbalance_type="NEMA")
+                    elif c == 2:
+                        r = an.current_unbalance(sim, arg, type="NEMA")           # deprecated spelling
+                    else:
+                        r = an.current_unbalance(sim, arg)
                     nema.append([None if (x != x) else float(x) for x in np.asarray(r)])
                 except (KeyError, ValueError) as e:
                     nema.append("raise:" + type(e).__name__)
@@ -175,25 +307,52 @@ def analyse(inp):
                     if net.constraint_matrix is not None:
                         raise
                     nema.append("raise:TypeError")
+                if list(arg) != arg_before:
+                    msgs.append("current_unbalance modified the caller's phase_ids")
         out["nema"] = nema
         dts = an.datetimes_array(sim)
         start = np.datetime64(sim.start.replace(tzinfo=None))
         out["minutes_us"] = [int((d - start).astype("timedelta64[us]").astype("int64")) for d in dts]
+        out["msgs"] = msgs
+        ed = inp.get("edit")
+        if ed and final and not after_edit and state.get("edited") is None:
+            # mutation between queries on the same objects: a constraint is removed / replaced / added on the network of
+            # the completed simulation and every function is asked again
+            from acnportal.acnsim.network.current import Current
+            state["edited"] = True
+            try:
+                target = cname(ed["target"], inp)
+                cur = Current({station_ids[int(k)]: v for k, v in ed["coefs"].items()})
+                if ed["kind"] == "remove" and target in net.constraint_index:
+                    net.remove_constraint(target)
+                elif ed["kind"] == "update" and target in net.constraint_index:
+                    net.update_constraint(target, cur, ed["limit"], new_name=("edit%d" % ed["new"]) if ed.get("new") else None)
+                else:
+                    net.add_constraint(cur, ed["limit"], name="edit%d" % (ed.get("new") or 51))
+                out["after_edit"] = extra(sim, station_ids, sess_num, after_edit=True)
+            except Exception as e:  # noqa
+                import traceback
+                out["after_edit"] = dict(error="%s: %s" % (type(e).__name__, e), where=traceback.format_exc().splitlines()[-3:])
         return out
     return extra
+
+
+def json_round(x):
+    import json
+    return json.loads(json.dumps(x))
 
 
 def run_impl(inp):
     base = analyse(inp)
 
-    def guarded(sim, station_ids, sess_num):
+    def guarded(sim, station_ids, sess_num, final=False):
         # an analysis function raising on a completed simulation with existing constraints is itself a finding
         try:
-            return base(sim, station_ids, sess_num)
+            return base(sim, station_ids, sess_num, final=final)
         except Exception as e:  # noqa
             import traceback
             return dict(error="%s: %s" % (type(e).__name__, e), where=traceback.format_exc().splitlines()[-3:])
-    impl = c02.run_history(inp, extra=guarded, midrun=guarded)
+    impl = c02.run_history(inp, extra=lambda *a: guarded(*a, final=True), midrun=guarded)
     return impl
 
 
@@ -271,7 +430,9 @@ def finish_case(inp, ex, snapshot):
                 amb = True
     return dict(input=inp, impl=dict(extra=ex, ok=True), coq=case_coq(inp, ex), ambiguous=amb,
                 kind="m=%d/n=%d/%s" % (len(ex["cindex"]), len(ex["volts"]),
-                                       ("final-reloaded" if inp.get("json") else "final") if snapshot == "final" else "mid-run"),
+                                       ("final-reloaded" if inp.get("json") else "final") if snapshot == "final"
+                                       else ("after-edit" if snapshot == "after-edit" else "mid-run"))
+                + "".join("/" + k for k in ("styles", "alias") if inp.get(k)),
                 sig=[inp["stations"], inp["sessions"], inp["script"], inp["constraints"], inp["cc_queries"],
                      inp["nema_queries"], snapshot],
                 nontrivial=ex["delivered"] != 0 or snapshot != "final")
@@ -292,7 +453,11 @@ def make_cases(inp):
         if any("error" in m for m in mids):
             keep = [k for k, m in enumerate(mids) if "error" in m][:1]
     out = [finish_case(inp, mids[k], k) for k in keep]
-    out.append(finish_case(inp, impl["extra"], "final"))
+    final = impl["extra"]
+    edited = final.pop("after_edit", None) if isinstance(final, dict) else None
+    out.append(finish_case(inp, final, "final"))
+    if edited is not None:
+        out.append(finish_case(inp, edited, "after-edit"))
     return out
 
 
@@ -321,6 +486,8 @@ def monitor(case):
     inp, ex = case["input"], case["impl"]["extra"]
     if "error" in ex:
         return "an analysis function raised on a completed simulation: %s (%s)" % (ex["error"], " | ".join(ex.get("where", [])))
+    for msg in ex.get("msgs", []):
+        return msg
     rates, volts, W = ex["rates"], ex["volts"], ex["width"]
     n = len(volts)
     ph = phasors(ex["phases"])
